@@ -8,7 +8,8 @@
 
    The per-writer skeletons below are transcribed by hand from the current
    sources in /repo (file and function named at each definition); they mirror
-   the code as it is, dropped errors included. *)
+   the code as it is (at /repo HEAD after the fixes bb75160dc zngio flush,
+   4633d767e csvio Close, b8582a178 tableio Write). *)
 From ZV Require Import Base.Prelude.
 Local Open Scope nat_scope.
 
@@ -184,9 +185,11 @@ Definition write_skel (k : wkind) (c : nat) : option skel :=
   | KJson, S c' => Some (Seq (Rep c' Wi) W)
   (* zio/csvio/writer.go Write: encoder.Write errors (bufio overflow flushes) are returned *)
   | KCsv, c => Some (Rep c W)
-  (* zio/tableio/writer.go Write: `w.flush()` on a type change / every 1000 lines: result discarded.
-     (records with at least two columns: the tabwriter never flushes by itself) *)
-  | KTable, c => Some (Ignore (Rep c W))
+  (* zio/tableio/writer.go Write: `if err := w.flush(); err != nil { return err }` on a type change and
+     every 1000 lines, `if err := w.writeHeader(..); err != nil { return err }`, and the Fprintf of the
+     line is returned; every sink call made by the tabwriter (flushes; for single-column records also
+     the header and the line themselves) is therefore checked *)
+  | KTable, c => Some (Scope (Rep c W))
   (* vng/writer.go Write: only fills the encoders *)
   | KVng, 0 => Some Skip
   | _, _ => None
@@ -199,8 +202,8 @@ Definition close_skel (k : wkind) (buffered : bool) (c : nat) : option skel :=
   | KZson, 0 | KZjson, 0 | KText, 0 | KZeek, 0 | KLake, 0 => Some (sink_close buffered)
   (* jsonio.Writer embeds the sink's io.Closer; nothing is buffered at that point *)
   | KJson, 0 => Some CloseSink
-  (* zio/csvio/writer.go Close: `w.encoder.Flush()` (error not consulted); `return w.writer.Close()` *)
-  | KCsv, c => Some (Seq (Ignore (Rep c W)) CloseSink)
+  (* zio/csvio/writer.go Close: err := w.Flush() (= encoder.Flush(); encoder.Error()); closeErr := w.writer.Close(); first non-nil *)
+  | KCsv, c => Some (Both (Rep c W) CloseSink)
   (* zio/tableio/writer.go Close: err := w.flush(); closeErr := w.writer.Close(); first non-nil *)
   | KTable, c => Some (Both (Rep c W) CloseSink)
   (* vng/writer.go Close: finalize (header, metadata, Emit: all checked) and w.writer.Close(); first non-nil *)
@@ -230,29 +233,27 @@ Definition static_env (k : wkind) (buffered : bool) (spill : list nat) (f : faul
 (* zio/zngio/writer.go.  State: bytes pending in w.types.bytes and w.values.
    writeBlock = nothing for an empty buffer, else header write + payload write
    (compressed or not), both checked.  flush: `if err := w.writeBlock(..); err
-   != nil { return nil }` for both blocks (swallow = true is the current
-   code; swallow = false is the code with `return err`), then the buffers are
-   cleared.  Write: append, flush when a buffer reaches the frame threshold.
-   EndStream: flush, then the EOS byte if anything was written since the last
-   end of stream.  Close: EndStream and w.writer.Close(), first error. *)
+   != nil { return err }` for both blocks, then the buffers are cleared (they
+   stay pending when a block failed).  Write: append, `return w.flush()` when a
+   buffer reaches the frame threshold.  EndStream: flush (error returned), then
+   the EOS byte if anything was written since the last end of stream.  Close:
+   EndStream and w.writer.Close(), first error. *)
 
-Definition zblock (swallow : bool) (b : N) : skel :=
-  if N.eqb b 0 then Skip
-  else if swallow then Swallow (Seq W W) else Seq W W.
+Definition zblock (b : N) : skel :=
+  if N.eqb b 0 then Skip else Seq W W.
 
-Definition zflush (swallow : bool) (tb vb : N) : skel :=
-  Seq (zblock swallow tb) (zblock swallow vb).
+Definition zflush (tb vb : N) : skel := Seq (zblock tb) (zblock vb).
 
-Definition zclose (swallow buffered : bool) (tb vb : N) : skel :=
-  Both (Seq (Scope (zflush swallow tb vb)) (IfDirty (Seq W Clean))) (sink_close buffered).
+Definition zclose (buffered : bool) (tb vb : N) : skel :=
+  Both (Seq (Scope (zflush tb vb)) (IfDirty (Seq W Clean))) (sink_close buffered).
 
 (* one Write: returns the result, the pending sizes afterwards and the state *)
-Definition zwrite (e : env) (swallow : bool) (thresh : N) (sz : N * N) (tb vb : N) (s : st)
+Definition zwrite (e : env) (thresh : N) (sz : N * N) (tb vb : N) (s : st)
   : res * (N * N) * st :=
   let tb' := (tb + fst sz)%N in
   let vb' := (vb + snd sz)%N in
   if (thresh <=? vb')%N || (thresh <=? tb')%N then
-    let '(r, s1) := exec e (zflush swallow tb' vb') s in
+    let '(r, s1) := exec e (zflush tb' vb') s in
     match r with
     | Cont => (Cont, (0%N, 0%N), s1)
     | RetErr => (RetErr, (tb', vb'), s1)
@@ -262,23 +263,23 @@ Definition zwrite (e : env) (swallow : bool) (thresh : N) (sz : N * N) (tb vb : 
 
 (* Writes in order until one reports; returns the first reporter, the pending
    sizes, the state and the number of logical writes made by each Write. *)
-Fixpoint zwrites (e : env) (swallow : bool) (thresh : N) (szs : list (N * N)) (i : nat)
+Fixpoint zwrites (e : env) (thresh : N) (szs : list (N * N)) (i : nat)
          (tb vb : N) (s : st) : option nat * (N * N) * st * list nat :=
   match szs with
   | [] => (None, (tb, vb), s, [])
   | sz :: r =>
-    let '(x, (tb1, vb1), s1) := zwrite e swallow thresh sz tb vb s in
+    let '(x, (tb1, vb1), s1) := zwrite e thresh sz tb vb s in
     let n := s_lw s1 - s_lw s in
     match x with
     | RetErr => (Some i, (tb1, vb1), s1, [n])
-    | _ => let '(rep, p, s2, l) := zwrites e swallow thresh r (S i) tb1 vb1 s1 in (rep, p, s2, n :: l)
+    | _ => let '(rep, p, s2, l) := zwrites e thresh r (S i) tb1 vb1 s1 in (rep, p, s2, n :: l)
     end
   end.
 
-Definition zrun (e : env) (swallow : bool) (thresh : N) (szs : list (N * N))
+Definition zrun (e : env) (thresh : N) (szs : list (N * N))
   : nat * st * list nat * nat :=
-  let '(rep, (tb, vb), s1, l) := zwrites e swallow thresh szs 0 0%N 0%N st0 in
-  let '(x, s2) := exec e (zclose swallow (e_buf e) tb vb) s1 in
+  let '(rep, (tb, vb), s1, l) := zwrites e thresh szs 0 0%N 0%N st0 in
+  let '(x, s2) := exec e (zclose (e_buf e) tb vb) s1 in
   let nclose := s_lw s2 - s_lw s1 - (if e_buf e then 1 else 0) in
   (match rep with
    | Some i => S i
